@@ -31,9 +31,6 @@ FP = [
     ('Python/dawgie/security.py', ['TwistedWrapper', 'use_tls']),
     ('Python/dawgie/pl/message.py', ['loads', 'dumps']),
 ]
-# the fingerprints of the functions as they were when the model was written
-FP_MODELLED = {
-}
 
 # short alias payloads (the loads shim of the driver maps them to real objects)
 ALIAS = {
